@@ -14,6 +14,7 @@ ENGINES = {
     "C11": "engines.c11",
     "C12": "engines.c12",
     "C14": "engines.c14",
+    "C08": "engines.c08",
     "C16": "engines.c16",
     "C13": "engines.c13",
 }
